@@ -21,14 +21,16 @@ Families
         number of trials seen (argument handed to adaptation_callable) and, in
         the mutation phase, of the suggestions.  Suggestions of the sampling
         phase are NOT compared (the sampler RNG is not documented state).
-  cmaes   CMAESDesigner: equality of the dumped evo-jax state (save_state,
-        which contains the PRNG key) after every update and of the
-        suggestions.
+  cmaes   CMAESDesigner: equality of dump() (the evo-jax save_state, which
+        contains the PRNG key, hence also determines the suggestions) after
+        every update and after every load, and of the suggestions.
   service  the algorithm hosted in the real service on a SQLite file, policy
         re-created at every SuggestTrials (that is what the service does) and
         the servicer re-created at drawn steps: (a) the suggestions returned
         by the service equal those of a live designer that is fed the trials
-        the service stores; (b) for (shuffled) grid search the first G
+        the service stores, and the designer state the service saved in the
+        study metadata equals dump() of that live designer; (b) for
+        (shuffled) grid search the first G
         suggestions are pairwise distinct and cover the grid computed from the
         space description (G = product of the axis sizes).
 
@@ -87,10 +89,6 @@ DET_KINDS = ('DOUBLE', 'INTEGER', 'DISCRETE', 'CATEGORICAL', 'BOOL')
 # ===========================================================================
 # generic A/B driver for designers whose suggestions are compared
 # ===========================================================================
-class _Stop(Exception):
-  pass
-
-
 def _exc(e):
   return type(e).__name__
 
@@ -1059,24 +1057,24 @@ def families(tier):
                   'restart_every_step')
   return [
       core.Family('grid', check_det, strategy=grid_strategy,
-                  budget={'quick': 240, 'thorough': 5000},
+                  budget={'quick': 240, 'thorough': 4000},
                   shards={'quick': 4, 'thorough': 16},
                   required_classes=det_required + ('shuffled', 'unshuffled',
                                                    'wrapped_around')),
       core.Family('quasi', check_det, strategy=quasi_strategy,
-                  budget={'quick': 240, 'thorough': 5000},
+                  budget={'quick': 240, 'thorough': 4000},
                   shards={'quick': 4, 'thorough': 16},
                   required_classes=det_required + ('seed_from_clock',
                                                    'seed_given')),
       core.Family('eagle', check_det, strategy=eagle_strategy,
-                  budget={'quick': 320, 'thorough': 6000},
+                  budget={'quick': 320, 'thorough': 5000},
                   shards={'quick': 6, 'thorough': 16},
                   required_classes=det_required + (
                       'seed_from_clock', 'restart_with_full_pool',
                       'restart_with_partial_pool', 'infeasible_trial',
                       'small_pool')),
       core.Family('nsga2', check_nsga2, strategy=nsga2_strategy,
-                  budget={'quick': 320, 'thorough': 6000},
+                  budget={'quick': 320, 'thorough': 5000},
                   shards={'quick': 6, 'thorough': 16},
                   required_classes=('path_direct', 'path_proto', 'path_sql',
                                     'restart_in_mutation_phase',
@@ -1087,14 +1085,14 @@ def families(tier):
                                     'fixed_adaptation')),
       core.Family('cmaes', check_cmaes, strategy=cmaes_strategy,
                   setup=setup_cmaes,
-                  budget={'quick': 200, 'thorough': 600},
-                  shards={'quick': 6, 'thorough': 16},
+                  budget={'quick': 200, 'thorough': 500},
+                  shards={'quick': 8, 'thorough': 16},
                   required_classes=('path_direct', 'path_proto', 'path_sql',
                                     'restart_buffer_empty',
                                     'restart_buffer_nonempty',
                                     'told_at_least_once')),
       core.Family('service', check_service, strategy=service_strategy,
-                  budget={'quick': 240, 'thorough': 5000},
+                  budget={'quick': 240, 'thorough': 4000},
                   shards={'quick': 6, 'thorough': 16},
                   required_classes=('GRID_SEARCH', 'SHUFFLED_GRID_SEARCH',
                                     'QUASI_RANDOM_SEARCH', 'EAGLE_STRATEGY',
